@@ -332,6 +332,7 @@ func (c *Conn) OpenUpstream(ctx context.Context, sessionID string, opts ...Upstr
 
 		ackCh:        ch,
 		dpgCh:        make(chan *DataPointGroup),
+		drainingCh:   make(chan struct{}),
 		sent:         c.sentStorage,
 		resCh:        make(chan []*message.UpstreamChunkResult, 8),
 		aliasCh:      make(chan map[uint32]*message.DataID, 8),
